@@ -7,7 +7,7 @@ From Coq Require Import List ZArith NArith String Bool.
 From SCC Require Import Base.Sexp Lang.FunSyn Lang.CoreSyn Lang.AxSyn Lang.AxSize Lang.FsSize Lang.CoreSize
      Model.Fun2Core Model.Focus Model.Shrink Model.SizeDefs Model.Linearize Model.Backend
      Model.Uniquify Proof.Fun2CoreProof Proof.SizeLin Proof.SizeCodegen Proof.SizeShrink Proof.SizeFocus Proof.SizeGen Proof.SizeUniquify Model.SizeFun Proof.SizeFun2CoreFv Proof.SizeFun2Core Proof.SizeFun2CoreProg
-     Model.ParMoves Model.LinCheck Model.X86 Model.SizeWf Proof.SizeParMoves Proof.SizeExchange Proof.SizeCodegenWf Proof.SizeX86 Proof.SizePipeline Proof.Fun2CoreExamples Proof.SizeFun2CoreRefute Proof.SizeA64 Proof.SizeRV.
+     Model.ParMoves Model.LinCheck Model.X86 Model.SizeWf Proof.SizeParMoves Proof.SizeExchange Proof.SizeCodegenWf Proof.SizeX86 Proof.SizePipeline Proof.Fun2CoreExamples Proof.SizeFun2CoreRefute Proof.SizeA64 Proof.SizeRV Proof.SizeLinWidth.
 From SCC Require Model.A64 Model.RV.
 Import ListNotations.
 Open Scope N_scope.
@@ -300,6 +300,7 @@ Print Assumptions C19_parallel_moves_count.
 Example C19_parallel_moves_indeg1_needed :
   diamonds_count 8 = Some (1020, 32, 24) /\ diamonds_count 12 = Some (16380, 48, 36).
 Proof. split; vm_compute; reflexivity. Qed.
+Print Assumptions C19_parallel_moves_indeg1_needed.
 
 (* x86-64: K = 40 + 13 * FIELDS_PER_BLOCK (= 79 with 3 fields per block) *)
 Theorem C19_x86_cost_model : cost_model_wf x86_backend x86_K.
@@ -342,30 +343,52 @@ Proof. exact rv_compile_size. Qed.
 Print Assumptions C19_rv_compile_size.
 
 (* ---------- round 2: the composition ---------- *)
-(* AxCut after linearization, from the source alone (no hypothesis but that the stages succeed):
-     pipeline_ax_bound p = b_linearized (b_shrunk (b_focused W V) X A),
-     W = f_wprog p (weighted source size), V = fun_occ p, X = fun_X p, A = fun_A p (type declarations),
+(* AxCut after shrinking and after linearization, from the source alone (no hypothesis but that the stages
+   succeed).  W = f_wprog p (weighted source size), V = fun_occ p, X = fun_X p, A = fun_A p (declarations);
+     pipeline_shrunk_bound p = b_shrunk (b_focused W V) X A,   pipeline_ax_bound p = b_linearized (that),
      b_focused W V = 4 W (12 + 3 V),  b_shrunk w X A = w ((2 + X (2 + A)) + 2 (1 + X) w),
-     b_linearized S = S (5 + 3 S)      (Model/SizeFun.v) *)
+     b_linearized S = S (5 + 3 S)      (Model/SizeFun.v);
+   closed forms with w = pl_w p = 12 W (4 + V), d = pl_d p = 4 + X (4 + A): d w^2 and 8 (d w^2)^2. *)
 Theorem C19_pipeline_ax_size : forall p c q s,
   compile_prog p = Fun2Core.Ok c -> focus_prog c = Backend.Ok q -> shrink_prog q = SOk s ->
-  ax_size_prog (linearize s) <= pipeline_ax_bound p /\
-  pipeline_ax_bound p <= 8 * (4 + fun_X p * (4 + fun_A p)) ^ 2 * (12 * (f_wprog p * (4 + fun_occ p))) ^ 4.
-Proof. intros p c q s H1 H2 H3. split; [exact (pipeline_ax_size p c q s H1 H2 H3) | exact (pipeline_ax_closed p)]. Qed.
+  ax_size_prog s <= pipeline_shrunk_bound p /\ ax_size_prog (linearize s) <= pipeline_ax_bound p /\
+  pipeline_shrunk_bound p <= pl_d p * pl_w p ^ 2 /\ pipeline_ax_bound p <= 8 * (pl_d p * pl_w p ^ 2) ^ 2.
+Proof.
+  intros p c q s H1 H2 H3. split; [exact (pipeline_shrunk_size p c q s H1 H2 H3)|].
+  split; [exact (pipeline_ax_size p c q s H1 H2 H3)|]. split; [exact (pipeline_shrunk_closed p) | exact (pipeline_ax_closed p)].
+Qed.
 Print Assumptions C19_pipeline_ax_size.
 
+(* the largest context the code generator meets on a linearized statement, in terms of the statement BEFORE
+   linearization (factor 2: a Create rearranges the context into rest ++ captured environment) *)
+Theorem C19_lin_max_context : forall fuel s c m,
+  ax_maxw (fst (lin fuel s c m)) (len c) <= 2 * len c + 2 * ax_size s.
+Proof. exact lin_maxw. Qed.
+Print Assumptions C19_lin_max_context.
+
+Theorem C19_cg_bound_linearize : forall p,
+  cg_bound_defs (pdefs (linearize p)) <= ax_size_prog (linearize p) * (5 + 4 * ax_size_prog p).
+Proof. exact cg_bound_linearize. Qed.
+Print Assumptions C19_cg_bound_linearize.
+
 (* instructions of the x86-64 routine (preamble, setup, code, cleanup):
-     <= 30 + x86_K * L * (5 + 2 L),  L = pipeline_ax_bound p
-   i.e. degree 8 in W (4 + V) and degree 4 in the declaration coefficient: every stage after focusing
-   contributes a factor 2 to the degree because its proved bound is size x (1 + width) and width <= size is
-   the only width estimate that needs no scoping invariant.  Guard: the Substitutes of the linearized program
-   have distinct ids (sub_wf; implied by lin_check_prog, which C05_linearize_exact gives for prog_ok inputs). *)
+     <= 30 + x86_K * L * (5 + 4 S),  S = pipeline_shrunk_bound p, L = pipeline_ax_bound p,
+     <= 30 + 72 * x86_K * (d w^2)^3
+   i.e. degree 6 in W (4 + V) and degree 3 in the declaration coefficient: shrinking and linearization each
+   square (their proved bounds are size x (1 + width) and width <= size is the only width estimate that needs no
+   scoping invariant), code generation multiplies by the size before linearization.  Guard: the Substitutes
+   of the linearized program have distinct ids (sub_wf; implied by lin_check_prog, which C05_linearize_exact
+   gives for prog_ok inputs). *)
 Theorem C19_pipeline_size : forall p c q s lc r n lc',
   compile_prog p = Fun2Core.Ok c -> focus_prog c = Backend.Ok q -> shrink_prog q = SOk s ->
   sub_wf_prog (linearize s) = true ->
   x86_compile (linearize s) lc = Backend.Ok (r, n, lc') ->
-  len r <= 30 + x86_K * (pipeline_ax_bound p * (5 + 2 * pipeline_ax_bound p)).
-Proof. exact pipeline_x86_size. Qed.
+  len r <= 30 + x86_K * (pipeline_ax_bound p * (5 + 4 * pipeline_shrunk_bound p)) /\
+  pipeline_ax_bound p * (5 + 4 * pipeline_shrunk_bound p) <= 72 * (pl_d p * pl_w p ^ 2) ^ 3.
+Proof.
+  intros p c q s lc r n lc' H1 H2 H3 HW H5. split; [exact (pipeline_x86_size p c q s lc r n lc' H1 H2 H3 HW H5)|].
+  exact (pipeline_cg_closed p).
+Qed.
 Print Assumptions C19_pipeline_size.
 
 (* the guard discharged through C05 (linearize_exact) when the shrunk program passes the boolean checker prog_ok
@@ -374,7 +397,7 @@ Theorem C19_pipeline_size_prog_ok : forall p c q s lc r n lc',
   compile_prog p = Fun2Core.Ok c -> focus_prog c = Backend.Ok q -> shrink_prog q = SOk s ->
   prog_ok s = true ->
   x86_compile (linearize s) lc = Backend.Ok (r, n, lc') ->
-  len r <= 30 + x86_K * (pipeline_ax_bound p * (5 + 2 * pipeline_ax_bound p)).
+  len r <= 30 + x86_K * (pipeline_ax_bound p * (5 + 4 * pipeline_shrunk_bound p)).
 Proof. exact pipeline_x86_size_prog_ok. Qed.
 Print Assumptions C19_pipeline_size_prog_ok.
 
@@ -384,5 +407,6 @@ Print Assumptions C19_pipeline_size_prog_ok.
 Example C19_pipeline_example :
   pipeline_run ex_shared =
     Some (33, 36, 5, 1, 1, (73, 84, 85, 63, 93), (660, 972), (220, 259, true, true, true),
-          (10975529531126448, 19033035261203346436745631680226222, 17410)).
+          (10975529531126448, 209780290354108469245288878, 17410)).
 Proof. vm_compute. reflexivity. Qed.
+Print Assumptions C19_pipeline_example.
